@@ -89,7 +89,7 @@ def grid(run):
         pts.append((dim, st, n, d, s, 'grid'))
     # one-off perturbations of valid points
     base = [p for p in pts if p[5] == 'valid']
-    for i in rng.choice(len(base), size=300 if quick else 3000, replace=False):
+    for i in rng.choice(len(base), size=min(len(base), 300 if quick else 3000), replace=False):
         dim, st, n, d, s, _ = base[int(i)]
         k = int(rng.integers(3))
         t = list(s)
